@@ -168,5 +168,6 @@ class Report:
         if self.broken:
             for b in self.broken:
                 print("ANALYSIS-BROKEN property=%s: %s" % (self.prop, b))
-            return 2
+            # a concrete violating construct was still exhibited: report it
+            return 1 if self.violations else 2
         return 1 if self.violations else 0
